@@ -138,6 +138,27 @@ V('c05-cimvalue-returns-same-list', 'C05', 'C05.R5',
         "        return value if all(isinstance(v, CIMType) for v in value) else [cimvalue(v, type) for v in value]\n"),
   'aliased-list')
 
+RESF = 'pywbem_mock/_resolvermixin.py'
+V('c12-inherit-no-copy', 'C12', 'C12.R6',
+  (RESF, "                new_obj = obj.copy()\n", "                new_obj = obj\n"), 'copy')
+V('c12-inherit-not-propagated', 'C12', 'C12.R6',
+  (RESF, "                new_obj.propagated = True\n", "                new_obj.propagated = False\n"),
+  'propagated')
+V('c12-override-origin-new-class', 'C12', 'C12.R6',
+  (RESF, "            new_obj.class_origin = inherited_obj.class_origin\n",
+         "            new_obj.class_origin = new_class.classname\n"), 'class-origin')
+V('c12-restricted-qualifier-inherited', 'C12', 'C12.R6',
+  (RESF, "            if inh_qual.tosubclass:\n                if inh_qual.overridable:",
+         "            if inh_qual.tosubclass is not False:\n                if inh_qual.overridable:"),
+  'flavor')
+V('c12-new-element-marked-propagated', 'C12', 'C12.R6',
+  (RESF, "                self._set_new_object(new_obj, None, new_class,\n                                     superclass, qualifier_store,\n                                     False, type_str)",
+         "                self._set_new_object(new_obj, None, new_class,\n                                     superclass, qualifier_store,\n                                     True, type_str)"),
+  'marks')
+V('c12-declared-qualifier-propagated', 'C12', 'C12.R6',
+  (RESF, "                        new_quals[inh_qname].propagated = False\n",
+         "                        new_quals[inh_qname].propagated = True\n"), 'propagated')
+
 # ---- C04 ------------------------------------------------------------------
 OPSF = 'pywbem/_cim_operations.py'
 MOCKF = 'pywbem_mock/_wbemconnection_mock.py'
